@@ -499,13 +499,60 @@ theorem slice_prefixSums (rows : List (List Nat)) (pre : List Nat) (i : Nat) (hi
       simp only [List.length_append, List.append_assoc] at this
       exact this
 
+theorem prefixSums_getLastD (a : Nat) (l : List Nat) :
+    (prefixSums a l).getLastD 0 = a + l.sum := by
+  induction l generalizing a with
+  | nil => simp [prefixSums]
+  | cons x xs ih =>
+    have hne : prefixSums (a + x) xs ≠ [] := by
+      intro h
+      have := prefixSums_length (a + x) xs
+      rw [h] at this
+      simp at this
+    obtain ⟨y, ys, hy⟩ := List.exists_cons_of_ne_nil hne
+    have := ih (a + x)
+    rw [hy] at this
+    simp only [prefixSums, hy, List.sum_cons]
+    simp only [List.getLastD_cons] at this ⊢
+    omega
+
+/-- The raw-pointer row copies tile the buffer: with the prefix sums as start
+offsets they produce the concatenation of the rows. -/
+theorem copyRows_prefixSums (rows : List (List Nat)) (pre : List Nat) :
+    copyRows (pre ++ List.replicate ((rows.map List.length).sum) 0)
+      (prefixSums pre.length (rows.map List.length)) rows = pre ++ rows.flatten := by
+  induction rows generalizing pre with
+  | nil => simp [prefixSums, copyRows]
+  | cons r rows ih =>
+    simp only [List.map_cons, List.sum_cons, prefixSums, copyRows, List.flatten_cons]
+    have hc : copyRow (pre ++ List.replicate (r.length + (rows.map List.length).sum) 0) pre.length r
+        = (pre ++ r) ++ List.replicate ((rows.map List.length).sum) 0 := by
+      simp only [copyRow, List.take_left, List.drop_append, List.drop_replicate,
+        Nat.add_sub_cancel_left, List.append_assoc]
+      rw [List.drop_eq_nil_of_le (Nat.le_add_right _ _)]
+      rfl
+    rw [hc]
+    have := ih (pre ++ r)
+    simp only [List.length_append, List.append_assoc] at this ⊢
+    exact this
+
+theorem assemble_eq (rows : List (List Nat)) :
+    assemble rows =
+      { size := rows.length, indptr := prefixSums 0 (rows.map List.length),
+        indices := rows.flatten, dataLen := rows.flatten.length } := by
+  have h := copyRows_prefixSums rows []
+  simp only [List.length_nil, List.nil_append] at h
+  simp only [assemble, prefixSums_getLastD, Nat.zero_add, h, prefixSums_length, List.length_map,
+    Nat.add_sub_cancel]
+
 theorem row_assemble (rows : List (List Nat)) (i : Nat) (hi : i < rows.length) :
     (assemble rows).row i = rows[i] := by
   have := slice_prefixSums rows [] i hi
-  simpa [assemble, Csr.row] using this
+  rw [assemble_eq]
+  simpa [Csr.row] using this
 
 theorem size_assemble (rows : List (List Nat)) : (assemble rows).size = rows.length := by
-  simp [assemble, prefixSums_length]
+  rw [assemble_eq]
 
 /-! ## The rows of `dual` equal their specification -/
 
